@@ -59,6 +59,9 @@ def check_if_not_need_reshape(
 
     a_rank = len(input_a_shape)
     b_rank = len(input_b_shape)
+    if a_rank == 0 or b_rank == 0:
+        logger.info("MatMul does not accept rank-0 inputs.")
+        return False
 
     # 1. Check if input shapes are broadcastable
     # 1.a. If the first input is 1-D, check whether
@@ -99,6 +102,10 @@ def check_if_not_need_reshape(
             reversed(input_b_shape_except_last_dim),
         )
     ):
+        if idx == 0 and dim_from_a != dim_from_b:
+            # The contracted dimensions must be equal (they are never broadcast).
+            logger.info("Original shape is not MatMul compatible.")
+            return False
         if dim_from_a not in {1, dim_from_b}:
             logger.info("Original shape is not broadcastable.")
             return False
